@@ -118,19 +118,20 @@ def match_known(pid, signature):
 class Verdict:
     """Collects violations of one check run and turns them into the exit protocol."""
 
-    def __init__(self, pid):
+    def __init__(self, pid, outdir=None):
         self.pid = pid
+        self.outdir = outdir or pid
         self.violations = []   # (signature, replay_path, summary)
         self.known = []
         self.notes = []
-        shutil.rmtree(os.path.join(WORK, pid, "replay"), ignore_errors=True)
+        shutil.rmtree(os.path.join(WORK, self.outdir, "replay"), ignore_errors=True)
 
     def violation(self, signature, replay_obj, summary):
         k = match_known(self.pid, signature)
         if k is not None:
             self.known.append((k, signature))
             return
-        d = workdir(self.pid, "replay")
+        d = workdir(self.outdir, "replay")
         path = os.path.join(d, f"{len(self.violations)}.json")
         replay_obj = dict(replay_obj, property=self.pid, signature=signature, summary=summary)
         with open(path, "w") as f:
